@@ -1,6 +1,6 @@
 GO_PKG = "."
 GO_PKGNAME = "dht"
-HARNESS = ["dht/sim_test.go", "dht/lookup_test.go"]
+HARNESS = ["dht/sim_test.go", "dht/lookup_test.go", "dht/world_test.go"]
 GO_TEST = "TestVerifC01"
 RUN_MODULE = "Run_C01"
 COQ_TARGETS = ["Corr/Run_C01.vo", "Proofs/LookupProofs.vo"]
